@@ -77,6 +77,7 @@ ArithDbl(op, a, b) ==
     [] op = "-" -> IF AddFits(a, -b) THEN VDbl(a - b) ELSE Undef
     [] op = "*" -> IF MulFits(a, b) /\ Abs(a * b) % 4 = 0 THEN VDbl(TruncDiv(a * b, 4)) ELSE Undef
     [] op = "/" -> IF b # 0 /\ MulFits(4, a) /\ (4 * Abs(a)) % Abs(b) = 0 THEN VDbl(TruncDiv(4 * a, b)) ELSE Undef
+    [] op = "%" -> IF b # 0 THEN VDbl(TruncRem(a, b)) ELSE Undef      \* fmod: exact, sign of the dividend
     [] OTHER -> Undef
 BitInt(op, t, a, b) ==
   CASE op = "&" -> MkNum(t, BAnd(a, b))
